@@ -82,7 +82,7 @@ enum Spec {
 
 type TreeSpec = BTreeMap<&'static str, Spec>;
 
-const TREE_NAMES: [&str; 10] = ["T0", "T1", "T2", "T3", "T4", "T5", "T6", "T7", "T8", "T9"];
+const TREE_NAMES: [&str; 11] = ["T0", "T1", "T2", "T3", "T4", "T5", "T6", "T7", "T8", "T9", "T10"];
 
 fn tree_spec(name: &str) -> TreeSpec {
     let mut t = TreeSpec::new();
@@ -115,6 +115,11 @@ fn tree_spec(name: &str) -> TreeSpec {
         }
         "T9" => {
             t.insert("f", Spec::Conflict(["a\n", "b\n", "c\n"]));
+        }
+        // shares f with T1 and d/c with T3: updates between them leave a tracked path unchanged
+        "T10" => {
+            t.insert("f", Spec::File("1\n", false));
+            t.insert("d/c", Spec::File("1\n", false));
         }
         // for the sparse family
         "S1" => {
@@ -868,8 +873,9 @@ fn run_case(case: &Case, tally: &Tally) -> CaseReport {
         }
     }
     if case.snapshot_before {
-        if snapshot_ignoring_new(&mut ws).is_err() {
+        if let Err(f) = snapshot_ignoring_new(&mut ws) {
             tally.snapshot_problems.inc();
+            tally.note(format!("{} in the snapshot before the update: {}", f.signature, f.message.replace('\n', " ")), format!("{:?}", case.obstacles));
             return report;
         }
         jj_disk = read_disk(&root, true);
@@ -882,8 +888,9 @@ fn run_case(case: &Case, tally: &Tally) -> CaseReport {
         .collect();
     for (i, (snapshot_between, update)) in steps.iter().enumerate() {
         if *snapshot_between {
-            if snapshot_ignoring_new(&mut ws).is_err() {
+            if let Err(f) = snapshot_ignoring_new(&mut ws) {
                 tally.snapshot_problems.inc();
+                tally.note(format!("{} in the snapshot between the updates: {}", f.signature, f.message.replace('\n', " ")), update.show());
                 return report;
             }
             jj_disk = read_disk(&root, true);
@@ -1217,7 +1224,7 @@ fn main() {
         evaluations: evaluated.get(),
         distinct_nontrivial: nontrivial.get(),
         rule: "histories check_out(T_old) [set_sparse_patterns] -> obstacle(s) [-> snapshot ignoring new files] -> update [[-> snapshot] -> \
-               update]: (A) every ordered pair of the 10 trees x every obstacle (location in paths and parent directories of \
+               update]: (A) every ordered pair of the 11 trees x every obstacle (location in paths and parent directories of \
                either tree, or a sibling in d/; 5 kinds) x {no snapshot, snapshot}; (B) the same followed by a second check_out \
                (quick: third tree in {T0, T4}, kinds file and symlink-to-outside-directory; thorough: all) x {no snapshot, \
                snapshot between}; (C, thorough) pairs of obstacles at disjoint locations; (D) sparse patterns: tree S1 under 4 \
